@@ -5,6 +5,7 @@
    message tasks) until nothing is ready, with the polling order of the biased select!.
    Time in ms.  Definitions only. *)
 From Coq Require Import List NArith Bool.
+From EZK Require Import Gen.Tables.
 Import ListNotations.
 Open Scope N_scope.
 
@@ -110,7 +111,8 @@ Definition task_step (s : st) : option st :=
          end
   | TUnused d rxr =>
     if rxr then Some (mkst (refs s) (transient s) (ent s) TInUse (inbox s) (eof s) (now s) (delivered s) (extra s) (panicked s))
-    else if item_ready s then
+    else if (if stream_frame_before_idle_timer then true else negb (d <=? now s)) && item_ready s then
+      (* the inbound frame is polled before the idle timer: a message that is readable when the timer fires still counts *)
       match handle_item s with
       | Some s' => Some s'
       | None => Some (mkst (refs s) (transient s) (ent s) (tsk s) (inbox s) (eof s) (now s) (delivered s) (extra s) true)
